@@ -166,7 +166,8 @@ impl Cfg {
                 b.kt_finish(f);
             }
             b.kt_ratio(self.kt_ratio).max_step_size(self.max_step).convergence(self.convergence).seed(12345);
-            return b;
+            // (and handed on as a copy, the way the command line hands its builder to each replica)
+            return b.clone();
         }
         if self.history == 2 && self.reachable_by_setters() {
             let mut b = BuildOptimiser::default();
